@@ -434,3 +434,28 @@ func bcastIndex(idx []int, src []int) int {
 	}
 	return off
 }
+
+// mismatches returns a header difference (shape/dtype/nil) or the flat indices of elements whose
+// values differ (NaN == NaN, -0 == +0).
+func mismatches(got, want tensor.Tensor) (string, []int) {
+	if got == nil || want == nil {
+		if got == nil && want == nil {
+			return "", nil
+		}
+		return fmt.Sprintf("nil-ness differs (%v vs %v)", got == nil, want == nil), nil
+	}
+	if !eqInts(got.Shape(), want.Shape()) {
+		return fmt.Sprintf("shape %v, want %v", got.Shape(), want.Shape()), nil
+	}
+	if got.Dtype() != want.Dtype() {
+		return fmt.Sprintf("dtype %v, want %v", got.Dtype(), want.Dtype()), nil
+	}
+	x, y := elems(got), elems(want)
+	var idx []int
+	for i := 0; i < x.Len(); i++ {
+		if !eqElem(x.Index(i), y.Index(i)) {
+			idx = append(idx, i)
+		}
+	}
+	return "", idx
+}
